@@ -38,7 +38,7 @@ func TestExhaustiveCLIFaults(t *testing.T) {
 			}
 			var bs []Branch
 			for i := 0; i < nb; i++ {
-				bs = append(bs, Branch{Name: branchNames[i], Existing: mask&(1<<uint(i)) != 0})
+				bs = append(bs, Branch{Name: branchNames[i], Existing: mask&(1<<uint(i)) != 0, ViaFile: (i+mask+nb)%2 == 0})
 			}
 			subCLI.Check(t, CLICase{Branches: bs})
 		}
@@ -103,9 +103,31 @@ func runCLI(c CLICase) (o evid.Outcome, err error) {
 	}
 	for _, b := range c.Branches {
 		fp, _ := repo.WriteFile("new-"+b.Name+".csv", cliCSV("new-"+b.Name))
-		if _, err := must("commit", b.Name, fp, "staged "+b.Name, "-p", "id", "--txid", id.String()); err != nil {
+		if b.ViaFile {
+			if _, err := must("config", "set", "branch."+b.Name+".file", fp); err != nil {
+				return o, err
+			}
+			if _, err := must("commit", b.Name, "staged "+b.Name, "-p", "id", "--txid", id.String()); err != nil {
+				return o, err
+			}
+		} else if _, err := must("commit", b.Name, fp, "staged "+b.Name, "-p", "id", "--txid", id.String()); err != nil {
 			return o, err
 		}
+	}
+	// staging does not show: until the transaction is committed every branch is where it was
+	{
+		_, rs, closeFn, err := repo.Open()
+		if err != nil {
+			return o, fmt.Errorf("HARNESS: %v", err)
+		}
+		for _, b := range c.Branches {
+			h, err := ref.GetHead(rs, b.Name)
+			if !b.Existing && err == nil {
+				closeFn()
+				return o, fmt.Errorf("`wrgl commit %s ... --txid` (via branch.file: %v) created branch %q (at %x) before the transaction was committed", b.Name, b.ViaFile, b.Name, h)
+			}
+		}
+		closeFn()
 	}
 	// what the transaction holds, read back from the repository
 	w := &world{id: id, oldHead: map[string][]byte{}, staged: map[string][]byte{}, tables: map[string][]byte{}}
